@@ -34,6 +34,7 @@ type Contract struct {
 	Trusted  bool   // body is not verified (external or abstracted)
 	TrustWhy string // reason text for evidence
 	Inline   bool
+	TrustedPost bool // body is verified for safety, its postconditions are assumed (reason in TrustWhy)
 	Frozen   []string // heap-name prefixes read in the entry state by abstract predicates (separation assumption)
 	NoMerge  bool // transparent callee whose return paths are continued separately
 	Transparent bool // private loop-free helper executed in place at its call sites (no contract boundary)
@@ -96,7 +97,7 @@ type Specs struct {
 	Files     []string
 }
 
-var kwRe = regexp.MustCompile(`^(func|spec|lemma|axiom|datafact|requires|ensures|loop|pure|trusted|inline|byexec|transparent|frozen|onappend|allocs|assigns|reads|props|fresh|nosafety|uses|hint)\b`)
+var kwRe = regexp.MustCompile(`^(func|spec|lemma|axiom|datafact|requires|ensures|loop|pure|trusted|inline|byexec|transparent|frozen|onappend|trustedpost|allocs|assigns|reads|props|fresh|nosafety|uses|hint)\b`)
 
 func LoadSpecs(files []string) (*Specs, error) {
 	sp := &Specs{Contracts: map[string]*Contract{}, SpecFns: map[string]*SpecFn{}, Lemmas: map[string]*Lemma{}}
@@ -234,6 +235,9 @@ func (sp *Specs) loadFile(path string) error {
 				cur.TrustWhy = rest
 			case "inline":
 				cur.Inline = true
+			case "trustedpost":
+				cur.TrustedPost = true
+				cur.TrustWhy = rest
 			case "byexec":
 				cur.ByExec = true
 			case "transparent":
